@@ -1,5 +1,7 @@
 import ScenicModel.Props.C02Checker
 import ScenicModel.Props.C02Defaults
+import ScenicModel.Props.C02Metrics
+import ScenicModel.Props.C02Oracle
 import ScenicModel.Model.SceneReqs
 
 /-! # C02 — every generated scene satisfies all of its requirements
@@ -158,5 +160,39 @@ theorem generated_scene_satisfies_requirements
           exact this _ hk u rfl
         | _ => rfl
       exact accepted_kinds dc act _ w hall k hmem hka hopt
+
+
+/-! ### the hypotheses of the composed theorem are satisfiable: a concrete run -/
+
+/-- objects 0 and 1 overlap -/
+def exWorldBad : World :=
+  ⟨fun _ => false, fun _ => true, fun a b => a == 0 && b == 1, fun _ => true, fun _ _ _ => true, fun _ => false, fun _ => false⟩
+/-- nothing overlaps, everything is contained and visible, the user requirement holds -/
+def exWorldGood : World :=
+  ⟨fun _ => false, fun _ => true, fun _ _ => false, fun _ => true, fun _ _ _ => true, fun _ => false, fun _ => false⟩
+
+def exDefaults : List ReqKind := (generate Scenic.Gen.defaultReqsCfg exInsts [0, 1, 2, 3] (some 0)).getD []
+
+/-- first candidate rejected during sampling, second falsifies an intersection requirement, third accepted -/
+example :
+    (generateInner Scenic.Gen.checkerCfg 4 (toReqs Scenic.Gen.defaultReqsCfg (fun _ => true) (allKinds exDefaults 1))
+      (State.init 4 14)
+      ([(none, []), (some exWorldBad, [1, 1/2, 1/4, 3]), (some exWorldGood, [1, 1, 1, 1, 1, 1, 1, 1, 1, 1, 1, 1, 1, 1])].map
+        (attemptOf Scenic.Gen.defaultReqsCfg (allKinds exDefaults 1))) 0).2 = some 2 := by
+  decide +kernel
+
+example : exDefaults.length = 13 ∧ World.consistent exWorldGood exInsts := by
+  refine ⟨by decide, ?_⟩
+  intro i b h
+  have hi : (instAt exInsts i).allowStatic = some false ∨ (instAt exInsts i).allowStatic = none := by
+    unfold instAt exInsts
+    match i with
+    | 0 | 1 | 2 | 3 => simp
+    | n + 4 => simp
+  rcases hi with h1 | h1
+  · rw [h1] at h
+    simp only [Option.some.injEq] at h
+    simp [exWorldGood, ← h]
+  · rw [h1] at h; simp at h
 
 end Scenic.C02
